@@ -3,9 +3,8 @@
    Part 1: structural induction on Go values.
    Part 2: iterate_describes — without recursion support, reading the events of a value gives
            back exactly the value ([read_doc (iterate cfg v) = canon cfg v]) for every value
-           outside the three defect classes (edges, bool slices longer than 8, records that
-           omit a declared field) and without signalling float32 NaNs; the defects are refuted
-           on witnesses.
+           without edges and without signalling float32 NaNs (the two open defect classes of
+           the plain iterator; refuted on witnesses in part 4).
    Part 3: iterate_valid — the validator accepts the events (see there for the fragment). *)
 From Coq Require Import ZifyN ZifyNat ZifyBool.
 From CE Require Import Model.Iterate.
@@ -246,15 +245,6 @@ End Describes.
 
 (* ---- leaves: bit arrays, numeric arrays, float32 ---- *)
 
-Lemma read_bools_small l :
-  (length l <= 8)%nat -> read_array AT_Bit (len l) (pack_bools l) = Some (DBits l).
-Proof.
-  intro H.
-  do 9 (destruct l as [|? l];
-        [ repeat match goal with b : bool |- _ => destruct b end; vm_compute; reflexivity | ]).
-  cbn in H. lia.
-Qed.
-
 (* the bit layout the reader expects is the layout of the intended packing, for every length:
    [pack_bits] (element i in bit i mod 8 of byte i / 8) reads back exactly *)
 Lemma byte_bits_of_bits l : (length l <= 8)%nat -> byte_bits (length l) (bits_byte l 0) 0 = l.
@@ -278,6 +268,50 @@ Proof.
     rewrite Hs, IH by (rewrite skipn_length; lia).
     rewrite Hf, byte_bits_of_bits by (rewrite firstn_length; lia).
     rewrite firstn_skipn. reflexivity.
+Qed.
+
+Lemma skipn_skipn' {A} : forall y (l : list A) x, skipn x (skipn y l) = skipn (y + x) l.
+Proof.
+  induction y as [|y IH]; intros l x; [reflexivity|].
+  destruct l as [|a l]; cbn [skipn Nat.add]; [destruct x; reflexivity | apply IH].
+Qed.
+
+(* the loop of iterateSliceOrArrayBool is that packing *)
+Lemma pack_loop_eq : forall k v isrc, pack_bools_loop v isrc k = pack_bits (skipn isrc v) k.
+Proof.
+  induction k as [|k IH]; intros v isrc; [reflexivity|].
+  cbn [pack_bools_loop pack_bits]. rewrite IH. f_equal.
+  - f_equal. destruct (Nat.le_gt_cases 8 (length v - isrc)) as [H|H].
+    + rewrite Nat.min_l by exact H. reflexivity.
+    + rewrite Nat.min_r by lia.
+      rewrite !firstn_all2 by (rewrite skipn_length; lia). reflexivity.
+  - rewrite skipn_skipn'. destruct (Nat.le_gt_cases 8 (length v - isrc)) as [H|H].
+    + rewrite Nat.min_l by exact H. reflexivity.
+    + rewrite Nat.min_r by lia. rewrite !skipn_all2 by lia. reflexivity.
+Qed.
+
+Lemma bool_byte_count_spec n :
+  n < two64 -> bool_byte_count n = n / 8 + (if n mod 8 =? 0 then 0 else 1).
+Proof.
+  intro H. unfold bool_byte_count, elem_byte_count. rewrite N.mul_1_r. rewrite (N.mod_small n two64) by exact H.
+  change (1 =? 1) with true. cbn [andb].
+  change 7 with (N.ones 3). rewrite N.land_ones. change (2 ^ 3) with 8.
+  assert (Hd : n / 8 < 2305843009213693952).
+  { apply N.div_lt_upper_bound; [lia|]. unfold two64 in H. lia. }
+  destruct (n mod 8 =? 0); cbn [negb]; [lia|].
+  rewrite N.mod_small by (unfold two64; lia). reflexivity.
+Qed.
+
+Lemma read_bools l : len l < two64 -> read_array AT_Bit (len l) (pack_bools l) = Some (DBits l).
+Proof.
+  intro H. unfold read_array. change (AT_Bit =? AT_Bit) with true. cbv iota.
+  unfold pack_bools. rewrite pack_loop_eq. cbn [skipn].
+  unfold len at 1. rewrite Nat2N.id.
+  rewrite unpack_pack_bits; [reflexivity | |];
+    rewrite (bool_byte_count_spec _ H); unfold len in *;
+    pose proof (N.div_mod (N.of_nat (length l)) 8 ltac:(lia)) as Hdm;
+    pose proof (N.mod_lt (N.of_nat (length l)) 8 ltac:(lia)) as Hm;
+    destruct (N.eqb_spec (N.of_nat (length l) mod 8) 0); lia.
 Qed.
 
 Lemma lor_pow2_set x n : N.testbit x n = true -> N.lor x (2 ^ n) = x.
@@ -400,11 +434,16 @@ Section DescribesMain.
   Lemma plain_struct sid fs :
     plain cfg (VStruct sid fs)
     = match find_record (c_records cfg) sid with
-      | Some r => record_events (rt_name r) (gofs fs)
+      | Some r => record_events cfg (rt_name r) (gofs fs)
       | None => struct_events cfg (gofs fs)
       end.
   Proof. rewrite <- (items_struct sid fs). reflexivity. Qed.
-  Lemma canon_struct sid fs : canon cfg (VStruct sid fs) = struct_dval cfg (cgofs fs).
+  Lemma canon_struct sid fs :
+    canon cfg (VStruct sid fs)
+    = match find_record (c_records cfg) sid with
+      | Some _ => record_dval cfg (cgofs fs)
+      | None => struct_dval cfg (cgofs fs)
+      end.
   Proof. rewrite <- (citems_struct sid fs). reflexivity. Qed.
 
   Definition child_ok (c : gval) : Prop := descr cfg c = true -> reads (plain cfg c) (canon cfg c).
@@ -446,6 +485,13 @@ Section DescribesMain.
     apply sort_by_rel; [intros x y [E _]; unfold gitem_order; rewrite E; reflexivity | exact H].
   Qed.
 
+  Lemma declared_rel a b : items_rel a b -> items_rel (declared_items cfg a) (declared_items cfg b).
+  Proof.
+    intro H. unfold declared_items, sorted_items.
+    apply filter_rel; [intros x y [E _]; rewrite E; reflexivity|].
+    apply sort_by_rel; [intros x y [E _]; unfold gitem_order; rewrite E; reflexivity | exact H].
+  Qed.
+
   Lemma combine_map {A} (f : A -> bytes) (g : A -> dval) l :
     combine (map DString (map f l)) (map g l) = map (fun x => (DString (f x), g x)) l.
   Proof. induction l as [|x l IH]; cbn [map combine]; [reflexivity | rewrite IH; reflexivity]. Qed.
@@ -473,11 +519,11 @@ Section DescribesMain.
 
   Lemma reads_record_events r its its' :
     find_record (c_records cfg) (rt_sid r) = Some r \/ (exists sid, find_record (c_records cfg) sid = Some r) ->
-    decl_keys cfg r = map (fun it : item => field_name cfg (fst (fst it))) (kept_items its) ->
-    items_rel its its' -> reads (record_events (rt_name r) its) (struct_dval cfg its').
+    decl_keys cfg r = map (fun it : item => field_name cfg (fst (fst it))) (declared_items cfg its) ->
+    items_rel its its' -> reads (record_events cfg (rt_name r) its) (record_dval cfg its').
   Proof.
-    intros Hfind Hkeys H. apply kept_rel in H. unfold record_events, struct_dval.
-    set (K := kept_items its) in *. set (K' := kept_items its') in *.
+    intros Hfind Hkeys H. apply declared_rel in H. unfold record_events, record_dval.
+    set (K := declared_items cfg its) in *. set (K' := declared_items cfg its') in *.
     assert (Hsid : exists sid, find_record (c_records cfg) sid = Some r) by (destruct Hfind as [Hf|Hf]; [eexists; exact Hf | exact Hf]).
     destruct Hsid as [sid Hsid].
     rewrite flat_map_concat.
@@ -515,9 +561,9 @@ Section DescribesMain.
     - (* VNum *) intros sk k es. split; [|exact I]. intro Hd. split; [|constructor].
       apply reads_single. intros st Hl. unfold rd_step. rewrite Hl.
       rewrite read_nums; [reflexivity|]. destruct k; try exact I. exact Hd.
-    - (* VBools *) intros sk l. split; [|exact I]. intro Hd. cbn [descr] in Hd. apply Nat.leb_le in Hd.
+    - (* VBools *) intros sk l. split; [|exact I]. intro Hd. cbn [descr] in Hd. apply N.ltb_lt in Hd.
       split; [|constructor]. apply reads_single. intros st Hl. unfold rd_step. rewrite Hl.
-      rewrite (read_bools_small l Hd). reflexivity.
+      rewrite (read_bools l Hd). reflexivity.
     - (* VSlice *) intros a es H. pose proof (Pd_children es H) as Hc. split; [|exact Hc].
       intro Hd. cbn [descr] in Hd. split; [|constructor].
       rewrite plain_list. apply reads_list_like; [exact Hc | exact Hd | reflexivity].
@@ -548,7 +594,7 @@ Section DescribesMain.
       rewrite plain_struct, canon_struct.
       destruct (find_record (c_records cfg) sid) as [r|] eqn:Hf.
       + apply reads_record_events; [right; exists sid; exact Hf | | exact Hrel].
-        rewrite items_struct in Hd2. apply (proj1 (list_eqb_eq bytes_eqb bytes_eqb_eq _ _)) in Hd2. exact Hd2.
+        unfold record_names in Hd2. rewrite items_struct in Hd2. apply (proj1 (list_eqb_eq bytes_eqb bytes_eqb_eq _ _)) in Hd2. exact Hd2.
       + apply reads_struct_events. exact Hrel.
     - (* VNode *) intros x ch [Hx _] [_ Hch]. split; [|exact I]. intro Hd. cbn [descr] in Hd.
       apply andb_true_iff in Hd as [Hdx Hdc]. split; [|constructor].
@@ -1187,6 +1233,15 @@ Section Valid.
     destruct (snd (fst x)); [constructor|]; assumption.
   Qed.
 
+  Lemma Forall_declared {A} (P : gitem A -> Prop) l : Forall P l -> Forall P (declared_items cfg l).
+  Proof.
+    intro H. unfold declared_items, sorted_items.
+    assert (Hs : Forall P (sort_by gitem_order l)).
+    { induction H as [|x l Hx H IH]; cbn [sort_by fold_right]; [constructor | apply Forall_ins_by; assumption]. }
+    clear H. induction Hs as [|x s Hx Hs IH]; cbn [filter]; [constructor|].
+    destruct (should_include cfg (fst (fst x)) false false); [constructor|]; assumption.
+  Qed.
+
   Lemma gofs_ok d fs :
     Forall (fun iv => Pv (snd iv)) fs -> forallb (fun iv => vok rc cfg (d + 1) (snd iv)) fs = true ->
     Forall (fun it : item => ev_ok (d + 1) (snd it)) (gofs cfg fs).
@@ -1260,13 +1315,14 @@ Section Valid.
       pose proof (gofs_ok d fs H Hd2) as Hits.
       rewrite items_struct. split; [|exact Hits].
       pose proof (Forall_kept _ _ Hits) as Hk.
-      rewrite plain_struct. unfold kept_names in Hd3. rewrite items_struct in Hd3.
+      pose proof (Forall_declared _ _ Hits) as Hdecl.
+      rewrite plain_struct. unfold kept_names, record_names in Hd3. rewrite items_struct in Hd3.
       destruct (find_record (c_records cfg) sid) as [r|] eqn:Hf.
       + apply andb_true_iff in Hd3 as [Hid Hlen]. apply Nat.eqb_eq in Hlen. rewrite map_length in Hlen.
         unfold record_events. rewrite flat_concat_map.
         apply C_record; [exact Hd1 | exact Hid | | ].
         * rewrite (Hrt sid r Hf). rewrite <- Hlen. unfold len. f_equal. f_equal. symmetry. apply map_length.
-        * clear Hlen. induction Hk as [|x K Hx Hk IH]; cbn [map]; constructor; assumption.
+        * clear Hlen. induction Hdecl as [|x K Hx Hdecl IH]; cbn [map]; constructor; assumption.
       + apply andb_true_iff in Hd3 as [Hnames Hfresh].
         unfold struct_events.
         set (K := kept_items (gofs cfg fs)) in *.
@@ -1503,6 +1559,119 @@ Section ValidDoc.
 End ValidDoc.
 
 (* ========================================================================= *)
+(* Part 3b: with recursion support the iteration runs to completion             *)
+
+Section Completes.
+  Variable cfg : icfg.
+  Variable dups : list N.
+
+  Definition total (em : emitter) : Prop := forall s, exists es s', em s = (es, Some s').
+
+  Lemma total_emit es : total (emit es).
+  Proof. intro s. exists es, s. reflexivity. Qed.
+  Lemma total_seq a b : total a -> total b -> total (seq_em a b).
+  Proof.
+    intros Ha Hb s. unfold seq_em. destruct (Ha s) as [e1 [s1 ->]]. destruct (Hb s1) as [e2 [s2 ->]].
+    exists (e1 ++ e2), s2. reflexivity.
+  Qed.
+  Lemma total_seq_all l : Forall total l -> total (seq_all l).
+  Proof. intro H. induction H as [|a l Ha H IH]; cbn [seq_all]; [apply total_emit | apply total_seq; assumption]. Qed.
+  Lemma total_with_ref a body : total body -> total (with_ref dups a body).
+  Proof.
+    intros Hb s. unfold with_ref. destruct (existsb (N.eqb a) dups); [|apply Hb].
+    destruct (named_find a (named s)) as [n|].
+    - eexists. eexists. reflexivity.
+    - match goal with |- context [body ?s0] => destruct (Hb s0) as [e [s' ->]] end.
+      eexists. eexists. reflexivity.
+  Qed.
+
+  Fixpoint rgofs (fs : list (finfo * gval)) : list ritem :=
+    match fs with
+    | [] => []
+    | (i, x) :: r =>
+        (if extractable i then
+           if f_anon i then snd (rwalk cfg dups x)
+           else [(i, should_include cfg i (is_empty x) (is_value_zero x), fst (rwalk cfg dups x))]
+         else []) ++ rgofs r
+    end.
+  Lemma ritems_struct sid fs : snd (rwalk cfg dups (VStruct sid fs)) = rgofs fs.
+  Proof.
+    cbn [rwalk snd].
+    induction fs as [|[i x] r IH]; [reflexivity|]. cbn [rgofs]. rewrite <- IH. reflexivity.
+  Qed.
+  Lemma rwalk_struct sid fs :
+    fst (rwalk cfg dups (VStruct sid fs))
+    = match find_record (c_records cfg) sid with
+      | Some r => record_em cfg (rt_name r) (rgofs fs)
+      | None => struct_em cfg (rgofs fs)
+      end.
+  Proof. rewrite <- (ritems_struct sid fs). reflexivity. Qed.
+
+  Definition Pt (v : gval) : Prop :=
+    total (fst (rwalk cfg dups v))
+    /\ Forall (fun it : ritem => total (snd it)) (snd (rwalk cfg dups v))
+    /\ match v with VSlice _ es => Forall (fun c => total (fst (rwalk cfg dups c))) es | _ => True end.
+
+  Lemma Pt_children es : Forall Pt es -> Forall (fun c => total (fst (rwalk cfg dups c))) es.
+  Proof. intro H. eapply Forall_impl; [|exact H]. intros c [Hc _]. exact Hc. Qed.
+  Lemma total_children es :
+    Forall (fun c => total (fst (rwalk cfg dups c))) es -> Forall total (map (fun x => fst (rwalk cfg dups x)) es).
+  Proof. intro H. induction H as [|x es Hx H IH]; cbn [map]; constructor; assumption. Qed.
+
+  Lemma completes_all : forall v, Pt v.
+  Proof.
+    apply gval_ind'; try (intros; split; [apply total_emit | split; [constructor | exact I]]).
+    - (* VSlice *) intros a es H. pose proof (Pt_children es H) as Hc. split; [|split; [constructor | exact Hc]].
+      cbn [rwalk fst].
+      apply total_with_ref. apply total_seq; [apply total_emit|]. apply total_seq; [|apply total_emit].
+      apply total_seq_all. apply total_children. exact Hc.
+    - (* VArray *) intros es H. pose proof (Pt_children es H) as Hc. split; [|split; [constructor | exact I]].
+      cbn [rwalk fst].
+      apply total_seq; [apply total_emit|]. apply total_seq; [|apply total_emit].
+      apply total_seq_all. apply total_children. exact Hc.
+    - (* VMap *) intros a kvs H. split; [|split; [constructor | exact I]]. cbn [rwalk fst].
+      apply total_with_ref. apply total_seq; [apply total_emit|]. apply total_seq; [|apply total_emit].
+      apply total_seq_all. induction H as [|kv kvs [[Hk _] [Hv _]] H IH]; cbn [map]; constructor; [|exact IH].
+      apply total_seq; assumption.
+    - (* VPtr *) intros a p [Hp _]. split; [|split; [constructor | exact I]]. cbn [rwalk fst]. apply total_with_ref. exact Hp.
+    - (* VOPtr *) intros p [Hp _]. split; [|split; [constructor | exact I]]. exact Hp.
+    - (* VIface *) intros p [Hp _]. split; [|split; [constructor | exact I]]. exact Hp.
+    - (* VStruct *) intros sid fs H.
+      assert (Hits : Forall (fun it : ritem => total (snd it)) (rgofs fs)).
+      { induction H as [|[i x] fs [Hx [Hi _]] H IH]; [constructor|]. cbn [rgofs snd] in *.
+        apply Forall_app. split; [|exact IH].
+        destruct (extractable i); [|constructor]. destruct (f_anon i); [exact Hi|].
+        constructor; [exact Hx | constructor]. }
+      split; [|split; [rewrite ritems_struct; exact Hits | exact I]].
+      rewrite rwalk_struct. destruct (find_record (c_records cfg) sid) as [r|].
+      + unfold record_em. apply total_seq; [apply total_emit|]. apply total_seq; [|apply total_emit].
+        apply total_seq_all. pose proof (Forall_declared cfg _ _ Hits) as Hd.
+        induction Hd as [|x K Hx Hd IH]; cbn [map]; constructor; assumption.
+      + unfold struct_em. apply total_seq; [apply total_emit|]. apply total_seq; [|apply total_emit].
+        apply total_seq_all. pose proof (Forall_kept _ _ Hits) as Hk.
+        induction Hk as [|x K Hx Hk IH]; cbn [map]; constructor; [|exact IH].
+        apply total_seq; [apply total_emit | exact Hx].
+    - (* VNode *) intros x ch [Hx _] [_ [_ Hch]]. split; [|split; [constructor | exact I]]. cbn [rwalk fst].
+      apply total_seq; [apply total_emit|]. apply total_seq; [exact Hx|]. apply total_seq; [|apply total_emit].
+      destruct ch; try apply total_emit.
+      apply total_seq_all. apply total_children. exact Hch.
+    - (* VEdge *) intros a b c [Ha _] [Hb _] [Hc _]. split; [|split; [constructor | exact I]]. cbn [rwalk fst].
+      apply total_seq; [apply total_emit|]. apply total_seq; [exact Ha|]. apply total_seq; assumption.
+  Qed.
+
+  (* whatever the value and the configuration, the iteration ends with the end of the document *)
+  Theorem iterate_completes_value v : exists es s', fst (rwalk cfg dups v) st0 = (es, Some s').
+  Proof. destruct (completes_all v) as [H _]. apply H. Qed.
+End Completes.
+
+Theorem iterate_completes cfg root : snd (iterate_outcome cfg root) = true.
+Proof.
+  destruct root as [v|]; [|reflexivity].
+  unfold iterate_outcome, value_outcome. destruct (c_recursion cfg); [|reflexivity].
+  unfold recursive. destruct (iterate_completes_value cfg (dups_of v) v) as [es [s' ->]]. reflexivity.
+Qed.
+
+(* ========================================================================= *)
 (* Part 4: the property in full, its refutations, the fragment that holds     *)
 
 (* For any supported value and configuration: the iteration completes, the validator accepts the
@@ -1553,14 +1722,13 @@ Ltac refute_with cfg v :=
   destruct Hi as [Hc [Ha Hd]]; vm_compute in Hc, Ha, Hd;
   try discriminate Hc; try discriminate Ha; try (specialize (Hd eq_refl)); try discriminate Hd; try congruence.
 
-(* defect: []bool longer than 8 — the ninth element is emitted as a copy of the first *)
+(* repaired (/repo 734b6c6): []bool longer than 8 — the witness of the former defect, pinned *)
 Definition w_bool9 : gval := VBools SSlice [false; false; false; false; false; false; false; false; true].
-Lemma bool9_misdescribed :
-  read_doc (iterate cfg_plain (Some w_bool9)) = Some (DBits [false; false; false; false; false; false; false; false; false])
+Lemma bool9_described :
+  iterate cfg_plain (Some w_bool9) = [EBeginDoc; EVersion 0; EArray AT_Bit 9 [0; 1]; EEndDoc]
+  /\ read_doc (iterate cfg_plain (Some w_bool9)) = Some (canon cfg_plain w_bool9)
   /\ canon cfg_plain w_bool9 = DBits [false; false; false; false; false; false; false; false; true].
-Proof. split; vm_compute; reflexivity. Qed.
-Lemma full_refuted_bool_slice : ~ full_property.
-Proof. refute_with cfg_plain w_bool9. Qed.
+Proof. repeat split; vm_compute; reflexivity. Qed.
 
 (* defect: types.Edge gets no end-container event *)
 Definition w_edge : gval := VEdge (VIface (VInt 1)) (VIface (VInt 2)) (VIface (VInt 3)).
@@ -1571,20 +1739,20 @@ Proof. split; vm_compute; reflexivity. Qed.
 Lemma full_refuted_edge : ~ full_property.
 Proof. refute_with cfg_plain w_edge. Qed.
 
-(* defect: a record omits an empty field its record type declares *)
+(* repaired (/repo 8413af6): a record carries its empty fields too — the former witness, pinned *)
 Definition f_a : finfo := mkF [65] true false ODefault 9223372036854775807%Z.
 Definition f_b : finfo := mkF [66] true false ODefault 9223372036854775807%Z.
 Definition cfg_record : icfg := mkCfg true false OEmpty [mkRT [114] 1 [(f_a, VInt 0); (f_b, VString [])]].
 Definition w_record : gval := VStruct 1 [(f_a, VInt 1); (f_b, VString [])].
-Lemma record_rejected :
-  head_ok default_rcfg cfg_record = true /\ supported default_rcfg cfg_record 0 w_record = true
-  /\ iterate cfg_record (Some w_record)
-     = [EBeginDoc; EVersion 0; ERecordType [114]; EStringArray AT_String [97]; EStringArray AT_String [98]; EEnd;
-        ERecord [114]; EInt 1; EEnd; EEndDoc]
-  /\ accepts_document default_rcfg (iterate cfg_record (Some w_record)) = false.
+Lemma record_accepted :
+  iterate cfg_record (Some w_record)
+  = [EBeginDoc; EVersion 0; ERecordType [114]; EStringArray AT_String [97]; EStringArray AT_String [98]; EEnd;
+     ERecord [114]; EInt 1; EStringArray AT_String []; EEnd; EEndDoc]
+  /\ accepts_document default_rcfg (iterate cfg_record (Some w_record)) = true
+  /\ read_doc (iterate cfg_record (Some w_record))
+     = Some (DMap [(DString [97], DScalar (EInt 1)); (DString [98], DString [])])
+  /\ canon cfg_record w_record = DMap [(DString [97], DScalar (EInt 1)); (DString [98], DString [])].
 Proof. repeat split; vm_compute; reflexivity. Qed.
-Lemma full_refuted_record : ~ full_property.
-Proof. refute_with cfg_record w_record. Qed.
 
 (* defect: a signalling float32 NaN is emitted quiet *)
 Definition w_snan : gval := VF32 2141192193.          (* 0x7fa00001 *)
@@ -1595,13 +1763,15 @@ Proof. split; vm_compute; reflexivity. Qed.
 Lemma full_refuted_float32_snan : ~ full_property.
 Proof. refute_with cfg_plain w_snan. Qed.
 
-(* defects under recursion support *)
-(* an array iterated as a list: TryAddLocalReference panics (reflect.Value.Pointer on an array) *)
+(* recursion support *)
+(* repaired (/repo 7f07b92): an array iterated as a list no longer panics — the former witness, pinned *)
 Definition w_array : gval := VArray [VString [97]].
-Lemma array_panics : iterate_outcome cfg_rec (Some w_array) = ([EBeginDoc; EVersion 0], false).
-Proof. vm_compute. reflexivity. Qed.
-Lemma full_refuted_array_recursion : ~ full_property.
-Proof. refute_with cfg_rec w_array. Qed.
+Lemma array_completes :
+  iterate_outcome cfg_rec (Some w_array)
+  = ([EBeginDoc; EVersion 0; EList; EStringArray AT_String [97]; EEnd; EEndDoc], true)
+  /\ accepts_document default_rcfg (iterate cfg_rec (Some w_array)) = true
+  /\ described_rec (iterate cfg_rec (Some w_array)) = Some (canon cfg_rec w_array).
+Proof. repeat split; vm_compute; reflexivity. Qed.
 
 (* a shared pointer to a shared pointer: marker directly followed by a marker *)
 Definition w_ptrptr : gval :=
@@ -1639,7 +1809,7 @@ Proof. repeat split; vm_compute; reflexivity. Qed.
 Lemma full_refuted_same_base_slices : ~ full_property.
 Proof. refute_with cfg_rec w_same_base. Qed.
 
-(* ---- the fragment that holds: no recursion support, [vok], [descr] ---- *)
+(* ---- the fragment that holds: no recursion support, [vok] and [descr] (no edge, no signalling float32 NaN) ---- *)
 
 Lemma weight_iterate_plain cfg v :
   c_recursion cfg = false ->
@@ -1681,7 +1851,7 @@ Definition ex_value : gval :=
                                VIface (VMap 2 [(VString [107], VF64 4607182418800017408); (VString [108], VNilPtr)]);
                                VIface (VNode (VIface (VUint 1)) (VSlice 3 [VIface (VUint 2)]))]);
              (f_name, VUint 7);
-             (f_rec, VStruct 7 [(f_a, VInt 1); (f_b, VString [120])])].
+             (f_rec, VStruct 7 [(f_a, VInt 1); (f_b, VString [])])].
 Lemma example_in_fragment :
   head_ok default_rcfg ex_cfg = true /\ records_ok ex_cfg = true
   /\ vok default_rcfg ex_cfg 0 ex_value = true /\ descr ex_cfg ex_value = true
